@@ -1,6 +1,7 @@
 package pipe
 
 import (
+	"encoding/json"
 	"fmt"
 	"os"
 	"path/filepath"
@@ -29,9 +30,54 @@ func goVerLess(a, b string) bool {
 	return len(pa) < len(pb)
 }
 
-// WorkFile returns the path of go.work relative to the module root and its content ("" , "" without a workspace).
-func (m *Module) WorkFile() (rel, content string) {
-	if m.Work == "" {
+// WorkMode: "" | "root" | "parent" | "auto" (see Module.Work).  Inputs written before the two workspace mechanisms were
+// unified spell "auto" as the JSON boolean true.
+type WorkMode string
+
+func (w *WorkMode) UnmarshalJSON(b []byte) error {
+	switch string(b) {
+	case "true":
+		*w = "auto"
+		return nil
+	case "false", "null":
+		*w = ""
+		return nil
+	}
+	var s string
+	if err := json.Unmarshal(b, &s); err != nil {
+		return err
+	}
+	*w = WorkMode(s)
+	return nil
+}
+
+// WorkPlace: "" (no workspace), "root" (go.work in this module's root) or "parent" (in the directory above it).
+func (m *Module) WorkPlace() string {
+	switch m.Work {
+	case "":
+		return ""
+	case "auto":
+		for _, x := range m.Ext {
+			if strings.HasPrefix(x.Dir, "../") {
+				return "parent"
+			}
+		}
+		return "root"
+	case "parent":
+		return "parent"
+	}
+	return "root"
+}
+
+// WorkNoRequire: the go.mod carries no require / replace lines for the other members.
+func (m *Module) WorkNoRequire() bool { return m.Work == "auto" || (m.Work != "" && m.WorkOnly) }
+
+// WorkFile returns the path of go.work relative to the module root and its content ("", "" without a workspace); self is
+// the name of the module's own directory (used when go.work lies above it).  The go line is the newest go directive
+// among the members, at least 1.18 (the first release with workspaces).
+func (m *Module) WorkFile(self string) (rel, content string) {
+	place := m.WorkPlace()
+	if place == "" {
 		return "", ""
 	}
 	gv := m.GoVer
@@ -43,17 +89,20 @@ func (m *Module) WorkFile() (rel, content string) {
 			gv = x.GoVer
 		}
 	}
+	if goVerLess(gv, "1.18") {
+		gv = "1.18"
+	}
 	var uses []string
 	rel = "go.work"
-	if m.Work == "parent" {
-		// the main module's directory is always "m" (RunScenario); a sibling "../mkit" is "./mkit" seen from above
+	if place == "parent" {
+		// a sibling "../mkit" is "./mkit" seen from above
 		rel = "../go.work"
-		uses = append(uses, "./m")
+		uses = append(uses, "./"+self)
 		for _, x := range m.Ext {
 			if strings.HasPrefix(x.Dir, "../") {
 				uses = append(uses, "./"+strings.TrimPrefix(x.Dir, "../"))
 			} else {
-				uses = append(uses, "./m/"+x.Dir)
+				uses = append(uses, "./"+self+"/"+x.Dir)
 			}
 		}
 	} else {
@@ -73,12 +122,9 @@ func (m *Module) WorkFile() (rel, content string) {
 }
 
 func (m *Module) writeWork(root string) error {
-	rel, content := m.WorkFile()
+	rel, content := m.WorkFile(filepath.Base(root))
 	if rel == "" {
 		return nil
-	}
-	if m.Work == "parent" && filepath.Base(root) != "m" {
-		return fmt.Errorf("workspace file above the module: the module directory must be named m, not %s", filepath.Base(root))
 	}
 	return os.WriteFile(filepath.Join(root, filepath.FromSlash(rel)), []byte(content), 0o644)
 }
@@ -105,7 +151,7 @@ func MakeWorkspace(r *core.RNG, sc *Scenario) {
 	if len(m.Ext) == 0 {
 		return
 	}
-	m.Work = core.Pick(r, []string{"root", "root", "parent"})
+	m.Work = core.Pick(r, []WorkMode{"root", "root", "parent"})
 	m.WorkOnly = r.Chance(50)
 	if len(m.Ext) > 1 && m.WorkOnly && r.Chance(50) {
 		// B -> C: only the workspace can resolve this import (B's go.mod does not require C)
